@@ -88,7 +88,7 @@ theorem fragmentShape_of_coreShape {mdb : MDb} {target : String} (h : CoreShape 
   have hlab : (labelsOf mdb).Nodup := by
     simp only [CoreShape, Bool.and_eq_true, decide_eq_true_eq] at h
     exact h.1.1.1.1.1.2
-  simp only [FragmentShape, sugarsOf_of_sugarFree hs, coreOf_of_sugarFree hs, h, List.map_nil, List.nodup_nil, List.all_nil,
+  simp only [FragmentShape, headsPlain, sugarsOf_of_sugarFree hs, coreOf_of_sugarFree hs, h, List.map_nil, List.nodup_nil, List.all_nil,
     Bool.and_eq_true, hlab, sugarShape_of_sugarFree _ _ mdb [] [] hs, and_true,
     List.all_eq_true, stmtArity_nil, implies_true, decide_true, Bool.true_and]
   simp
